@@ -332,6 +332,28 @@ func (g *tagger) limitStrings() (period, limit, max, min string) {
 			g.tag("limit.syntax=empty")
 		}
 	}
+	// near-valid spellings of an otherwise valid number: padding, separators, exponent and fraction forms
+	// (validation and execution parse these strings separately - both must agree on what a number is)
+	if g.edge("limit.spelling", 15) {
+		forms := []func(string) string{
+			func(x string) string { return " " + x }, func(x string) string { return x + " " }, func(x string) string { return x + "\n" },
+			func(x string) string { return "\t" + x }, func(x string) string { return x + "\x00" }, func(x string) string { return "1_000" },
+			func(x string) string { return "1e3" }, func(x string) string { return x + ".0" }, func(x string) string { return "\u0661\u0660" },
+		}
+		names := []string{"leadingSpace", "trailingSpace", "trailingNewline", "leadingTab", "trailingNUL", "underscore", "exponent", "fraction", "arabicDigits"}
+		k := g.pick("limit.spelling.form", len(forms))
+		switch g.pick("limit.spelling.field", 4) {
+		case 0:
+			period = forms[k](period)
+		case 1:
+			limit = forms[k](limit)
+		case 2:
+			max = forms[k](max)
+		default:
+			min = forms[k](min)
+		}
+		g.tag("limit.spelling=" + names[k])
+	}
 	return
 }
 
